@@ -7,7 +7,7 @@ use std::collections::{BTreeMap, BTreeSet};
 use std::fmt::Write as _;
 use std::panic::{catch_unwind, AssertUnwindSafe};
 
-pub use blsful::inner_types::{G1Affine, G1Projective, G2Affine, G2Projective, Scalar};
+pub use blsful::inner_types::{Curve, Field, Group, GroupEncoding, PrimeField, G1Affine, G1Projective, G2Affine, G2Projective, Scalar};
 
 /// SplitMix64 — every random choice of a run derives from `VERIF_SEED` through this.
 #[derive(Clone)]
